@@ -11,7 +11,7 @@ PROPS = {
         "harnesses": [
             {"pkg": "ord", "name": "VH_C20_ListAccept", "quick": {"params": {"U": 2, "FQ": 0}}, "thorough": {"params": {"U": 3, "FQ": 1}}},
             {"pkg": "ord", "name": "VH_C20_BidAccept", "quick": {"params": {"U": 2, "FQ": 0}}, "thorough": {"params": {"U": 3, "FQ": 1}}},
-            {"pkg": "ord", "name": "VH_C20_Inscribe", "quick": {"params": {"BIG": 0}}, "thorough": {"params": {"BIG": 1}}},
+            {"pkg": "ord", "name": "VH_C20_Inscribe", "quick": {"params": {"BIG": 1}}, "thorough": {"params": {"BIG": 2}}},
         ],
         "assumptions": [],
     },
@@ -34,7 +34,9 @@ PROPS = {
     "C05": {
         "harnesses": [
             {"pkg": "interpreter", "name": "VH_C05_Opcode", "quick": {"params": {"D": 3, "K": 2, "A": 1, "U": 6, "KM": 1}}, "thorough": {"params": {"D": 4, "K": 3, "A": 1, "U": 8, "KM": 2}}},
-            {"pkg": "interpreter", "name": "VH_C05_Opcode", "quick": {"params": {"D": 2, "K": 1, "BIGTOP": 9, "OPLO": 121, "OPHI": 128, "U": 4}}, "thorough": {"params": {"D": 3, "K": 1, "BIGTOP": 9, "OPLO": 121, "OPHI": 165, "U": 4}}},
+            {"pkg": "interpreter", "name": "VH_C05_Opcode", "quick": {"params": {"D": 2, "K": 1, "BIGTOP": 9, "OPLO": 121, "OPHI": 128, "U": 4}}, "thorough": {"params": {"D": 3, "K": 1, "BIGTOP": 9, "OPLO": 121, "OPHI": 128, "U": 4}}},
+            {"pkg": "interpreter", "name": "VH_C05_Opcode", "quick": {"params": {"D": 2, "K": 2, "BIGTOP": 9, "OPLO": 152, "OPHI": 153, "U": 4}}, "thorough": {"params": {"D": 3, "K": 3, "BIGTOP": 10, "OPLO": 152, "OPHI": 153, "U": 4}}},
+            {"pkg": "interpreter", "name": "VH_C05_Opcode", "thorough_only": True, "thorough": {"params": {"D": 3, "K": 2, "X": 1, "ALIAS": 1, "U": 6, "KM": 1, "OPLO": 126, "OPHI": 165}}},
             {"pkg": "interpreter", "name": "VH_C05_Control", "quick": {"params": {"D": 1, "K": 1, "C": 2, "U": 4}}, "thorough": {"params": {"D": 2, "K": 1, "C": 3, "U": 4}}},
         ],
         "validate_tests": [{"pkg": "interpreter", "run": "TestVerifRefScripts"}],
@@ -44,6 +46,7 @@ PROPS = {
         "harnesses": [
             {"pkg": "bt", "name": "VH_C18_FeeQuote"},
             {"pkg": "bt", "name": "VH_C18_FeeQuotes"},
+            {"pkg": "interpreter", "name": "VH_C18_Engine", "require_no_shared_writes": True},
             {"pkg": "interpreter", "name": "VH_C07_ExecuteScripts", "require_no_shared_writes": True, "quick": {"params": {"L": 1, "LU": 0}}, "thorough": {"params": {"L": 2, "LU": 0}}},
         ],
         "assumptions": [],
